@@ -97,7 +97,12 @@ class AliasUse(Ty):
         return '<type name="%s" c:type="C%s%s"/>' % (self.name, self.name, '*' if out else '')
 
     def expect(self, out=False):
-        return self.target.expect(out)
+        e = self.target.expect(out)
+        if isinstance(e, dict) and e.get('tag') == 'interface':
+            # the pointer flag of a registered type follows the c:type written at the use site (the alias' own C name,
+            # which has no '*'), not the alias target: UNSPECIFIED here
+            e = {k: v for k, v in e.items() if k != 'pointer'}
+        return e
 
 
 class Arr(Ty):
@@ -664,6 +669,11 @@ def match(exp, got, path, out, ctx=None):
                     continue
                 for x in v:
                     match(x, gmap[x['name']][0], '%s.%s[%s]' % (path, k, x['name']), out, got)
+            elif k == 'interface' and isinstance(v, str) and '.' not in v and _MODEL[0] is not None \
+                    and got[k] == '%s.%s' % (_MODEL[0].get('namespace'), v):
+                # the compiler stores a local type reached through an <alias> as a by-name reference into the namespace
+                # itself; it names the same entry (representation not fixed by the statement)
+                continue
             else:
                 match(v, got[k], '%s.%s' % (path, k), out, got)
         if '_attributes' in exp and _MODEL[0] is not None and '_offset' in got:
